@@ -14,8 +14,9 @@ fn main() {
     match cmd {
         "run" => {
             let prop = args.get(2).expect("property id");
-            let spec = props::spec(prop).unwrap_or_else(|| {
-                eprintln!("unknown property {prop}");
+            let engine = arg(&args, "--engine").unwrap_or("seq");
+            let spec = props::spec_for(prop, engine).unwrap_or_else(|| {
+                eprintln!("unknown property/engine {prop}/{engine}");
                 exit(2)
             });
             let cases: u32 = arg(&args, "--cases").map(|s| s.parse().unwrap()).unwrap_or(1000);
@@ -23,14 +24,7 @@ fn main() {
             let out = arg(&args, "--out");
             let replay_dir = arg(&args, "--replay-dir").unwrap_or("/verif/replays");
             let known: Vec<String> = arg(&args, "--known").map(|s| s.split(',').filter(|x| !x.is_empty()).map(|x| x.to_string()).collect()).unwrap_or_default();
-            let engine = arg(&args, "--engine").unwrap_or("seq");
-            let sum = match engine {
-                "seq" => run_prop(&spec, cases, seed, replay_dir, &known),
-                other => {
-                    eprintln!("unknown engine {other}");
-                    exit(2)
-                }
-            };
+            let sum = run_prop(&spec, cases, seed, replay_dir, &known);
             let js = serde_json::to_string(&sum).unwrap();
             match out {
                 Some(p) => std::fs::write(p, js).unwrap(),
@@ -53,7 +47,7 @@ fn main() {
         "replay" => {
             let path = args.get(2).expect("replay file");
             let rp: Replay = serde_json::from_str(&std::fs::read_to_string(path).unwrap()).unwrap();
-            let spec = props::spec(&rp.property).expect("property");
+            let spec = props::spec_for(&rp.property, &rp.engine).expect("property/engine");
             match run_one(&spec, &rp.case) {
                 Ok(out) => {
                     for v in &out.violations {
